@@ -114,6 +114,13 @@ def build(name='u_off', selector_variants=('TextSelector', 'AnnotationSelector',
     common.int_specs(u)
     u.trusted_text(VX_MSG, 'external_body vx_msg(): error message text (R-err)')
     u.item('src/types.rs', 'enum', 'Cursor', keep_derives=['Debug', 'Clone', 'Copy', 'PartialEq'])
+    u.trusted_text('''
+/// R-derive-eq: `#[derive(PartialEq)]` on Cursor is structural equality (trusted)
+impl vstd::std_specs::cmp::PartialEqSpecImpl for Cursor {
+    open spec fn obeys_eq_spec() -> bool { true }
+    open spec fn eq_spec(&self, other: &Self) -> bool { *self == *other }
+}
+''', 'derived PartialEq on Cursor is structural equality (R-derive-eq)')
     u.item('src/selector.rs', 'struct', 'Offset', keep_derives=['Clone', 'Copy', 'PartialEq'])
     u.item('src/selector.rs', 'enum', 'OffsetMode', keep_derives=['Clone', 'Copy', 'PartialEq'])
     u.item('src/error.rs', 'enum', 'StamError', keep_variants=['CursorOutOfBounds', 'InvalidOffset', 'InvalidCursor'], keep_derives=['Debug'])
@@ -296,6 +303,10 @@ impl TextResource {
     ])
     u.spec('''
 /// every handle stored in a selector refers to a live item, and stored text selections are well formed and inside their resource
+/// the text selection a selector carries itself (a text selector, or an annotation selector with text)
+pub open spec fn target_text(sel: Selector) -> Option<(TextResourceHandle, TextSelectionHandle)> {
+    match sel { Selector::TextSelector(r, t, _) => Some((r, t)), Selector::AnnotationSelector(_, Some((r, t, _))) => Some((r, t)), _ => None }
+}
 pub open spec fn selector_valid(sel: Selector, store: &AnnotationStore) -> bool {
     match sel {
         Selector::TextSelector(res, tsel, _) => store.res(res) is Some && store.res(res).unwrap().sel(tsel) is Some
@@ -316,8 +327,7 @@ pub open spec fn selector_valid(sel: Selector, store: &AnnotationStore) -> bool 
                 _ => r is None }''')]),
         Fn('offset_with_mode', props=P4, ret='r',
            requires=[('valid', 'selector_valid(*self, store)'),
-                     ('parent_valid', '''match *self { Selector::AnnotationSelector(a, Some(_)) => selector_valid(store.ann(a).unwrap().target, store)
-                          && (match store.ann(a).unwrap().target { Selector::TextSelector(pres, ptsel, _) => store.res(pres).unwrap().sel(ptsel).unwrap().end <= isize::MAX as usize, _ => true }), _ => true }''')],
+                     ('parent_valid', '''match *self { Selector::AnnotationSelector(a, Some(_)) => selector_valid(store.ann(a).unwrap().target, store), _ => true }''')],
            ensures=[('text_selector', '''match *self {
                 Selector::TextSelector(res, tsel, stored_mode) => {
                     let t = store.res(res).unwrap().sel(tsel).unwrap();
@@ -333,15 +343,15 @@ pub open spec fn selector_valid(sel: Selector, store: &AnnotationStore) -> bool 
                     ('annotation_selector', '''match *self {
                 Selector::AnnotationSelector(a, Some((res, tsel, stored_mode))) => {
                     let t = store.res(res).unwrap().sel(tsel).unwrap();
-                    match store.ann(a).unwrap().target {
-                        Selector::TextSelector(pres, ptsel, _) => {
+                    match target_text(store.ann(a).unwrap().target) {
+                        Some((pres, ptsel)) => {
                             let parent = store.res(pres).unwrap().sel(ptsel).unwrap();
                             (r is Some <==> embeds_sel(parent, t))
                             && (r is Some ==> mode_of(r.unwrap()) == (match override_mode { Some(m) => m, None => stored_mode })
                                 && wf_offset(r.unwrap()) && accept(r.unwrap(), parent.end - parent.begin)
                                 && resolve_in(r.unwrap(), parent) == (t.begin as int, t.end as int))
                         },
-                        _ => true,
+                        None => r is None,
                     }
                 },
                 _ => true }'''),
